@@ -1889,3 +1889,12 @@ def render(name):
 
 
 UNITS['SrcDms'] = dms_unit
+
+
+def io_unit():
+    # geostructures shapefile / GeoPandas adapters (C20): declared in srcunits_io.py (its own reading `io_adapters`)
+    import srcunits_io
+    return srcunits_io.unit()
+
+
+UNITS['SrcIo'] = io_unit
